@@ -2019,8 +2019,8 @@ def c16(ctx):
         for flags in ([], ["--skip-import-processing"], ["--skip-import-processing", "--print-only"], ["--skip-import-processing", "--diff"],
                       ["--print-only", "-v"], ["--diff", "--skip-generated"], ["--skip-import-processing", "--skip-generated", "-v"]):
             root = ctx.scratch("misfitflags")
-            good = "package a\n\nfunc ok() {\n\tz := foo(7)\n\t_ = z\n}\n"
-            cl.write_tree(root, {"bad.go": ms, "good.go": good, "p.patch": mp})
+            goodsrc = "package a\n\nfunc ok() {\n\tz := foo(7)\n\t_ = z\n}\n"
+            cl.write_tree(root, {"bad.go": ms, "good.go": goodsrc, "p.patch": mp})
             before = open(os.path.join(root, "bad.go")).read()
             code, out, err = cl.gopatch(ctx.gopatch, root, ["-p", "p.patch"] + flags + ["bad.go", "good.go"])
             e, so = err.decode("utf-8", "replace"), out.decode("utf-8", "replace")
@@ -2038,7 +2038,7 @@ def c16(ctx):
                 probs.append("a diff was printed for bad.go")
             if probs:
                 ctx.violation(f"gopatch {' '.join(flags)} on a rewrite whose result is not valid Go: " + "; ".join(probs),
-                              {"fault": "misfit-flags", "input": {"patches": [mp], "files": {"bad.go": ms, "good.go": good}, "flags": flags},
+                              {"fault": "misfit-flags", "input": {"patches": [mp], "files": {"bad.go": ms, "good.go": goodsrc}, "flags": flags},
                                "stderr": e[-400:]})
             shutil.rmtree(root, ignore_errors=True)
     library_reuse_family(ctx, "C16: a failure is reported by the call it belongs to, and by no other")
